@@ -133,9 +133,7 @@ def vcs(tier):
     out += [Time(k) for k in ("AbsoluteCount", "AbsolutePercentage", "ThresholdQuorum")]
     # two-call chains on one proposal (the second call is judged on the state the first really left behind)
     CH = ("Vote", "Execute", "Close")
-    pairs = [("Execute", "Execute"), ("Execute", "Vote"), ("Close", "Execute")] if tier == "quick" else [(a, b) for a in CH for b in CH]
-    import os
-    if not os.environ.get("VERIF_CHAINS"): pairs = []          # DEV: being measured
+    pairs = [(a, b) for a in CH for b in CH] if tier == "thorough" else []       # quick: single steps only (a flex chain takes minutes)
     for c in (FIXED, FLEX):
         out += [Step(c, b, after=a) for a, b in pairs]
     return out
